@@ -104,6 +104,9 @@ def run(case, ctx):
             base = int(r.choice(plabs)) if plabs else 1
             absent = [base + 2 ** info.bits, int(info.max) + 2, base + 2 ** (info.bits - (1 if info.min < 0 else 0))][i % 3]
             ctx.count("f:absent_label_outside_dtype")
+        if i % 7 == 3 and dtype is not np.uint64:
+            absent = -int(r.integers(1, 4))  # a negative label is simply absent (also from an unsigned map)
+            ctx.count("f:absent_negative_label")
         ridx = int(r.choice(rlabs)) if rlabs and r.random() < 0.85 else absent
         k = int(r.integers(0, 5))
         if k == 0:
@@ -113,6 +116,16 @@ def run(case, ctx):
         else:
             pool = plabs + [absent, absent - 1]
             pidx = [int(x) for x in r.choice(pool, size=min(len(pool), int(r.integers(1, 5))), replace=False)]
+        if i % 16 == 9:
+            # floating point label maps with fractional label values (0.5, 1.0, 1.5, ...): a label selects the voxels
+            # that are equal to it
+            fdt = [np.float32, np.float64][(i // 16) % 2]
+            sc = 0.5 if int(info.max) < 2**20 or i % 4 else 1.0
+            if max(plabs + rlabs + [1]) < 2**20:
+                pred, refa = pred.astype(fdt) * sc, refa.astype(fdt) * sc
+                ridx = float(ridx) * sc
+                pidx = [float(x) * sc for x in pidx] if isinstance(pidx, list) else float(pidx) * sc
+                ctx.count("f:float_label_maps")
         ctx.count("f:pidx." + ("list" if isinstance(pidx, list) else type(pidx).__name__))
         metrics = ["DSC", "IOU", "RVD"] + (["clDSC"] if refa.ndim in (2, 3) else [])
         vals = {}
